@@ -127,7 +127,7 @@ BRD = ["double", "", "single", "dbl", "Double"]
         what="RTFPage rejects an unknown orientation, placement keyword or border style, a margin list not of length 6 and "
              "non-positive sizes with ValueError (ValidationError included) and accepts the legal values"))
     obs.append(Ob(
-        oid="O2.body_figure", sig="which: int, k: int, flag: bool", pre=["0 <= which <= 3", "0 <= k <= 3"], header=HDRV + r'''
+        oid="O2.body_figure", sig="which: int, k: int, flag: bool, sflag: bool, gflag: bool", pre=["0 <= which <= 3", "0 <= k <= 3"], header=HDRV + r'''
 PBR = ["column", "first_row", "row", ""]
 ALN = ["left", "center", "right", "middle"]
 POS = ["before", "after", "top", ""]
@@ -136,7 +136,8 @@ POS = ["before", "after", "top", ""]
     if which == 0:
         got, legal = outcome(lambda: rtf.RTFBody(page_by=["a"], pageby_row=pick(PBR, k))), k < 2
     elif which == 1:
-        got, legal = outcome(lambda: rtf.RTFBody(page_by=["a"] if flag else None, new_page=True)), flag
+        got, legal = outcome(lambda: rtf.RTFBody(page_by=["a"] if flag else None, subline_by=["s"] if sflag else None,
+                                                 group_by=["g"] if gflag else None, new_page=True)), flag
     elif which == 2:
         got, legal = outcome(lambda: rtf.RTFFigure(fig_align=pick(ALN, k), fig_pos=POS[0])), k < 3
     else:
@@ -147,8 +148,8 @@ POS = ["before", "after", "top", ""]
 ''',
         funcs=["rtflite.input:RTFBody.validate_pageby_row", "rtflite.input:RTFBody._validate_page_by_logic",
                "rtflite.input:RTFFigure.validate_alignment", "rtflite.input:RTFFigure.validate_position"],
-        bounds="pageby_row / fig_align / fig_pos candidates; new_page with and without page_by",
-        what="RTFBody and RTFFigure reject unknown keywords and new_page without page_by"))
+        bounds="pageby_row / fig_align / fig_pos candidates; new_page with and without page_by, subline_by, group_by",
+        what="RTFBody and RTFFigure reject unknown keywords and new_page without page_by (subline_by or group_by do not replace it)"))
     obs.append(Ob(
         oid="O2.figure_file", sig="exists: bool, asl: bool", pre=[], header=HDRV + r'''
 import os
